@@ -359,6 +359,7 @@ private theorem queuesOk_step (w : Nat) (s : State) (o : Op) (h : QueuesOk s) : 
   unfold QueuesOk at *
   cases o with
   | tick now => exact h
+  | advance now => exact h
   | setchan ch cap => exact queuesOk_setChan h (by simp)
   | delchan ch => intro e he; exact h e (List.mem_filter.1 he).1
   | drain ch n =>
@@ -417,6 +418,128 @@ theorem c17_other_queues_untouched (w : Nat) (s : State) (now : Nat) (r : Req) (
     exact lookup_filter_ne _ hne
 
 example : (step 10 { chans := [(2, ⟨1, []⟩), (3, ⟨1, []⟩)] } (.req 0 ⟨2, [1]⟩)).1.chans.lookup 3 = some ⟨1, []⟩ := by decide
+
+/-! ### the admin entry point posts like every other caller -/
+
+/-- `SendObservationRequest` (the admin RPC) on the outbound request queue: it fails exactly when the queue is full and
+then leaves the queue untouched; otherwise the caller's request, unchanged, becomes the last entry.  It is a total
+function of the queue — whatever context the caller passes, there is no waiting outcome. -/
+theorem c17_admin_post_nonblocking (q : Chan) (r : Req) :
+    ((adminSend q r).2 = false ↔ q.cap ≤ q.items.length) ∧
+    ((adminSend q r).2 = false → (adminSend q r).1 = q) ∧
+    ((adminSend q r).2 = true → (adminSend q r).1 = { q with items := q.items ++ [r] }) :=
+  c17_post_nonblocking q r
+
+example : adminSend ⟨1, [⟨1, []⟩]⟩ ⟨1, [9]⟩ = (⟨1, [⟨1, []⟩]⟩, false) ∧
+    adminSend ⟨2, [⟨1, []⟩]⟩ ⟨1, [9]⟩ = (⟨2, [⟨1, []⟩, ⟨1, [9]⟩]⟩, true) := by decide
+
+/-! ### dropped means dropped: nothing reaches a watcher that a request of the history did not forward -/
+
+/-- The passage of time alone — the clock moving on, or a purge tick — puts nothing on any watcher queue (and the
+clock moving on does not touch the cache either). -/
+theorem c17_time_alone_delivers_nothing (w : Nat) (s : State) (now : Nat) :
+    step w s (.advance now) = (s, none) ∧ (step w s (.tick now)).1.chans = s.chans ∧
+    fwdOf w s (.advance now) = [] ∧ fwdOf w s (.tick now) = [] := ⟨rfl, rfl, rfl, rfl⟩
+
+example : (runOps 10 { chans := [(2, ⟨1, []⟩)] } [.advance 5, .tick 7, .advance 700]).chans = [(2, ⟨1, []⟩)] := by decide
+
+/-- A request that finds no watcher, a full queue, or a remembered key forwards nothing, now or later: it contributes
+nothing to `forwards`, and the whole state is as it was. -/
+theorem c17_dropped_request_forwards_nothing (w : Nat) (s : State) (now : Nat) (r : Req)
+    (h : hasKey s.cache r.key = true ∨ s.room (r.chain % 65536) = none ∨ s.room (r.chain % 65536) = some false) :
+    fwdOf w s (.req now r) = [] ∧ (step w s (.req now r)).1 = s := by
+  simp only [fwdOf, step]
+  rcases dispatch_cases s.cache now r s.room with ⟨_, e⟩ | ⟨_, _, e⟩ | ⟨_, _, e⟩ | ⟨hk, hr, _⟩
+  · rw [e]; exact ⟨rfl, rfl⟩
+  · rw [e]; exact ⟨rfl, rfl⟩
+  · rw [e]; exact ⟨rfl, rfl⟩
+  · rcases h with h | h | h
+    · rw [hk] at h; cases h
+    · rw [hr] at h; cases h
+    · rw [hr] at h; cases h
+
+example : fwdOf 10 { chans := [(2, ⟨1, [⟨2, [7]⟩]⟩)] } (.req 0 ⟨2, [1]⟩) = [] ∧
+    fwdOf 10 { chans := [(2, ⟨1, []⟩)] } (.req 0 ⟨2, [1]⟩) = [⟨2, [1]⟩] := by decide
+
+private theorem mem_setChan {chans : List (Nat × Chan)} {ch : Nat} {q : Chan} {e : Nat × Chan}
+    (h : e ∈ setChan chans ch q) : e = (ch, q) ∨ e ∈ chans := by
+  rcases List.mem_cons.1 h with h | h
+  · exact Or.inl h
+  · exact Or.inr (List.mem_filter.1 h).1
+
+private theorem inQueues_step (w : Nat) (s : State) (o : Op) (x : Req) (h : InQueues (step w s o).1 x) :
+    InQueues s x ∨ x ∈ fwdOf w s o := by
+  obtain ⟨e, he, hx⟩ := h
+  cases o with
+  | tick now => exact Or.inl ⟨e, he, hx⟩
+  | advance now => exact Or.inl ⟨e, he, hx⟩
+  | setchan ch cap =>
+    rcases mem_setChan he with he | he
+    · subst he; cases hx
+    · exact Or.inl ⟨e, he, hx⟩
+  | delchan ch => exact Or.inl ⟨e, (List.mem_filter.1 he).1, hx⟩
+  | drain ch n =>
+    simp only [step] at he
+    cases hl : s.chans.lookup ch with
+    | none => rw [hl] at he; exact Or.inl ⟨e, he, hx⟩
+    | some q =>
+      rw [hl] at he
+      rcases mem_setChan he with he | he
+      · subst he
+        exact Or.inl ⟨(ch, q), lookup_mem hl, List.mem_of_mem_drop hx⟩
+      · exact Or.inl ⟨e, he, hx⟩
+  | req now r =>
+    simp only [fwdOf, step] at he ⊢
+    rcases dispatch_cases s.cache now r s.room with ⟨_, d⟩ | ⟨_, _, d⟩ | ⟨_, _, d⟩ | ⟨_, _, d⟩ <;> rw [d] at he ⊢ <;> simp only at he ⊢
+    · exact Or.inl ⟨e, he, hx⟩
+    · exact Or.inl ⟨e, he, hx⟩
+    · exact Or.inl ⟨e, he, hx⟩
+    · cases hl : s.chans.lookup (r.chain % 65536) with
+      | none => rw [hl] at he; exact Or.inl ⟨e, he, hx⟩
+      | some q =>
+        (try rw [hl] at he)
+        (try rw [hl])
+        simp only at he ⊢
+        rcases mem_setChan he with he | he
+        · subst he
+          simp only [List.mem_append, List.mem_singleton] at hx
+          rcases hx with hx | hx
+          · exact Or.inl ⟨(r.chain % 65536, q), lookup_mem hl, hx⟩
+          · exact Or.inr (by simp [hx])
+        · exact Or.inl ⟨e, he, hx⟩
+
+/-- **Everything on a watcher queue is accounted for.**  Along every operation sequence (requests, purge ticks, the clock
+moving on, watchers draining, appearing and disappearing) a request sits in a watcher queue only if it was there at
+the start or a request of the sequence was forwarded with it (`forwards`: the `req` operations whose outcome is
+`forwarded`).  There is no deferred delivery: what was dropped is gone. -/
+theorem c17_queue_items_were_forwarded (w : Nat) (ops : List Op) (s : State) (x : Req)
+    (h : InQueues (runOps w s ops) x) : InQueues s x ∨ x ∈ forwards w s ops := by
+  induction ops generalizing s with
+  | nil => exact Or.inl h
+  | cons o os ih =>
+    simp only [runOps] at h
+    simp only [forwards, List.mem_append]
+    rcases ih _ h with h' | h'
+    · rcases inQueues_step w s o x h' with h'' | h''
+      · exact Or.inl h''
+      · exact Or.inr (Or.inl h'')
+    · exact Or.inr (Or.inr h')
+
+/-- A request that was dropped (or never made) is never delivered later: starting from empty queues, a request that no
+`req` operation of the sequence forwarded is in no watcher queue afterwards — however long the clock runs. -/
+theorem c17_dropped_never_delivered (w : Nat) (ops : List Op) (s : State) (x : Req)
+    (hempty : ∀ e ∈ s.chans, e.2.items = []) (hnot : x ∉ forwards w s ops) : ¬ InQueues (runOps w s ops) x := by
+  intro h
+  rcases c17_queue_items_were_forwarded w ops s x h with ⟨e, he, hx⟩ | h
+  · rw [hempty e he] at hx; cases hx
+  · exact hnot h
+
+-- the seeded scenario: chain 2's queue is full when [2] arrives; it drains; five seconds, a minute, the window pass
+example : forwards 660 { chans := [(2, ⟨1, []⟩)] }
+      [.req 0 ⟨2, [1]⟩, .req 0 ⟨2, [2]⟩, .drain 2 1, .advance 5, .advance 60, .tick 420, .advance 661, .tick 840] = [⟨2, [1]⟩] ∧
+    (runOps 660 { chans := [(2, ⟨1, []⟩)] }
+      [.req 0 ⟨2, [1]⟩, .req 0 ⟨2, [2]⟩, .drain 2 1, .advance 5, .advance 60, .tick 420, .advance 661, .tick 840]).chans
+      = [(2, ⟨1, []⟩)] := by decide
 
 /-! ### the extracted durations -/
 
